@@ -177,3 +177,16 @@ TEXT["C19"] = dict(
                "python's encoders. Exhaustive for the small space, sampled beyond.",
     level_note="trusts the harness's reference transcriptions and python's base64/binascii; less_icase is only required "
                "to be a consistent order that agrees with compare_icase on 7-bit input")
+TEXT["C03"] = dict(
+    engine="differential",
+    design_ref="DESIGN.md section 4, C03",
+    technique="runtime output monitor (identity permutation, memcmp order, exact LCP, canary) over generated string multisets x representation x entry point x memory limit, under ASan+UBSan",
+    level_text="Each sort is checked three ways: the multiset of string objects (pointers of C strings and owned strings, "
+               "suffix offsets, std::string values) is unchanged, neighbours are ordered by unsigned bytes, and every "
+               "lcp[i>=1] equals the recomputed LCP with the slot behind the array untouched. Generators aim at what the "
+               "suite never builds: empty and prefix-related strings, bytes >= 0x80, runs of identical strings that end "
+               "inside a radix step, sizes around 32/256/65536, and non-zero memory limits spread over all fall-back "
+               "thresholds, for all seven detail sorters and the public overloads. Each C string is its own heap block "
+               "so ASan sees reads past the terminator. Exploration: held on the cases generated.",
+    level_note="trusts the harness's memcmp/LCP reference; the signed-char string sets are driven through the public API "
+               "only (that is where the unsigned-order guarantee for char* is made)")
